@@ -397,6 +397,28 @@ func (c *Check) ruleReadErrorsChecked(rule string, rels []string, min int) {
 						if errOf(v) == call {
 							direct = true
 						}
+						// returned through a result variable joined from several paths
+						seenP := map[ssa.Value]bool{}
+						var walk func(x ssa.Value)
+						walk = func(x ssa.Value) {
+							if seenP[x] {
+								return
+							}
+							seenP[x] = true
+							if phi, ok := x.(*ssa.Phi); ok {
+								for _, e := range phi.Edges {
+									walk(e)
+								}
+								return
+							}
+							if ex, ok := x.(*ssa.Extract); ok && ex.Tuple == ssa.Value(call) {
+								direct = true
+							}
+							if x == ssa.Value(call) {
+								direct = true
+							}
+						}
+						walk(v)
 					}
 				}
 				c.Decide(direct, rule, key, s.Pos(), "error-check dominance", nil, "error returned directly", "the error of this read is never tested: a truncated input would be decoded as a shorter/different value")
